@@ -453,6 +453,29 @@ theorem close_with_two_listeners_orphans_writer (cfg : Cfg) (hcfg : cfg.closeBot
   · simp [canWake, init]
   · simp [loopDone, init]
 
+/-! ## child reaping by the process-handle finaliser -/
+
+/-- the generated flag is what the option string says -/
+theorem proc_gc_match : Gen.Loop.procGcBlockingWait = decide (Gen.Loop.procGcWaitOptions = "0") := by decide
+
+/-- ★ with a blocking wait the finaliser leaves no child behind, whatever state the children were in: dropping and collecting
+    any number of un-waited handles leaves the number of children (running or zombie) unchanged -/
+theorem finalizer_reaps_every_child : ∀ handles : List Child, leftBehind true handles = 0
+  | [] => rfl
+  | c :: cs => by
+    have ih := finalizer_reaps_every_child cs
+    unfold leftBehind at ih ⊢
+    cases c <;> simpa [procGc] using ih
+
+/-- with WNOHANG every handle whose child is still running at collection time leaves a zombie: one per cycle of
+    "spawn, drop the handle, collect" -/
+theorem nohang_finalizer_leaves_zombies (n : Nat) : leftBehind false (List.replicate n .running) = n := by
+  induction n with
+  | zero => rfl
+  | succ k ih =>
+    unfold leftBehind at ih ⊢
+    simp [List.replicate_succ, procGc] at ih ⊢
+
 /-! ## stale timers -/
 
 theorem dropStale_all_stale (stale : Timer → Bool) : ∀ ts : List Timer, (∀ t ∈ ts, stale t = true) → dropStale stale ts = []
